@@ -424,7 +424,10 @@ func (g *gen) leaf() *model.Leaf {
 			l.Val = []string{"TRUE", "FALSE", "true", "false"}[r.Intn(4)]
 		} else {
 			l.Op = []string{"==", "!=", "<", "<=", ">", ">="}[r.Intn(6)]
-			switch r.Intn(10) {
+			switch r.Intn(11) {
+			case 10:
+				// the README's AutoVar example: checkitem(...) == TRUE
+				l.Val = []string{"TRUE", "FALSE"}[r.Intn(2)]
 			case 0:
 				l.Val = g.varName()
 			case 1:
